@@ -181,6 +181,8 @@ def gen_conn_case(rng):
 
     def some_op(top, big_ok):
         r = rng.random()
+        if conn[0] in "tT" and rng.random() < 0.06:
+            return "Z"                                     # uv_tcp_close_reset
         if dead and r < 0.12:
             return retry()
         if r < 0.50:
@@ -199,6 +201,8 @@ def gen_conn_case(rng):
                                                ("Kl" if r < 0.9 else "S")))
     if rng.random() < 0.55 and "S" not in ops:
         ops.append("S")
+    if conn[0] in "tT" and rng.random() < 0.08:
+        ops.append("Z")                                    # while the connect (and maybe a shutdown) is pending
     if rng.random() < 0.05:
         ops.append("C")
     ops += ["R"] * rng.choice([1, 1, 2, 4])
@@ -284,6 +288,46 @@ def gen_ipc_case(rng):
     if rng.random() < 0.4:
         tail += ["C", "R"]
     return "0 0 - 1 ; %s ; %s ; %s ; settle%d" % (" ".join(ops + tail), " | ".join(behs), " ".join(script), len(tail))
+
+
+def add_reset(rng, case):
+    """TCP scripts: uv_tcp_close_reset (Z) at any point - preferably between uv_shutdown and its callback, where it
+    must be refused and change nothing - at top level and from callbacks"""
+    parts = case.split(";")
+    ops = parts[1].split()
+    r = rng.random()
+    if r < 0.45:
+        return case
+    spots = [i + 1 for i, t in enumerate(ops) if t == "S"]
+    for _ in range(rng.choice([1, 1, 2])):
+        pos = rng.choice(spots) if spots and rng.random() < 0.6 else rng.randrange(0, max(1, min(len(ops), 16)))
+        ops.insert(pos, "Z")
+        if rng.random() < 0.3:
+            ops.insert(min(len(ops), pos + 1 + rng.randrange(3)), "C")      # an ordinary close after a (refused) reset
+    parts[1] = " " + " ".join(ops) + " "
+    if rng.random() < 0.25:
+        behs = parts[2].split("|")
+        k = rng.randrange(len(behs))
+        behs[k] = " " + (behs[k].strip() + rng.choice([" Z", " S Z", " Z C"])).strip() + " "
+        parts[2] = "|".join(behs)
+    return ";".join(parts)
+
+
+FIXED_TCP = [
+    # uv_tcp_close_reset between uv_shutdown and its callback: UV_EINVAL and no effect (SO_LINGER still off); the
+    # ordinary close that follows ends the stream in order - the seeded change set linger-zero before refusing
+    "0 0 ; W5 S Z C R R ; ; e11 ; settle2",
+    "0 0 ; W5 S Z R R R C R ; ; e11 n2 ; settle5",
+    "0 0 ; W5 W3 S Z Z R R R R ; ; e11 ; settle4",
+    # refused from inside a write callback, with the shutdown issued there
+    "0 0 ; W3 W2 R R R R ; S Z | ; e11 ; settle4",
+    # accepted: requests still queued complete once with UV_ECANCELED, the peer sees a reset
+    "0 0 ; W5 W2 Z R R ; ; e11 ; settle2",
+    "0 0 ; W5 R Z R ; ; n2 e11 ; settle1",
+    # after the shutdown callback the request is gone: accepted again
+    "0 0 ; W5 S R R Z R ; ; ; settle1",
+    "0 0 ; Z W1 T1 S R ; ; ; settle1",
+]
 
 
 MAX_RW = 0x7ffff000
@@ -467,6 +511,8 @@ def monitor(case, line):
     conn_pending = 1 if conn_case else 0      # connect requests accepted and not called back yet
     reopened = False         # uv_tcp_connect after uv_shutdown: maybe_new_socket sets UV_HANDLE_WRITABLE again
     orphaned = set()         # finished requests that were waiting for their callback when a connect was accepted
+    reset_done = False       # uv_tcp_close_reset accepted: the peer may see a reset and lose bytes
+    shut_req_pending = False # between an accepted uv_shutdown and its callback
     left_at_shut = []
 
     def outstanding_bytes():
@@ -589,9 +635,27 @@ def monitor(case, line):
                 if ret.get(i) != 0 or i in cbs:
                     return (None, "write_completed_queue holds request %d, which was refused or already called back" % i)
             orphaned.update(ids)
+        elif k == "z":
+            code = int(a[1:])
+            shut_pending = shut_req_pending
+            if code == 0:
+                if shut_pending:
+                    return (None, "uv_tcp_close_reset was accepted while a uv_shutdown request was pending")
+                reset_done = True
+            elif code == -22:
+                if not shut_pending:
+                    return (None, "uv_tcp_close_reset returned UV_EINVAL although no uv_shutdown request was pending")
+            else:
+                return (None, "uv_tcp_close_reset returned %d" % code)
+        elif k == "l":
+            if a[1:] != "0":
+                return (None, "a refused uv_tcp_close_reset (UV_EINVAL) left SO_LINGER set on the socket (l_onoff=%s): "
+                              "the later ordinary uv_close resets the connection and the kernel discards what is "
+                              "still unsent" % a[1:])
         elif k == "s":
             if int(a[1:]) == 0:
                 shut_ok_at = pos
+                shut_req_pending = True
         elif k == "Y":
             sys_shut = int(a[1:])
             left_at_shut = [i for i in total if ret.get(i) == 0 and i not in cbs and acc[i] != total[i]
@@ -599,12 +663,22 @@ def monitor(case, line):
         elif k == "B":
             early = [i for i in total if ret.get(i) == 0 and i not in cbs and i not in is_try]
             in_cb = True
+            shut_req_pending = False
             if early:
                 return (None, "shutdown callback ran before the callback of earlier write(s) %s" % early)
         elif k == "e":
             nbytes, eof, ok = [int(x) for x in a.split(",")]
             if ok != 1:
                 return (None, "the peer did not read the bytes that were written, in order")
+            if reset_done:
+                if nbytes > sum(acc.values()):
+                    return (None, "the peer read %d bytes, the OS accepted %d" % (nbytes, sum(acc.values())))
+                continue          # an accepted reset may cut the peer's stream short; no end-of-stream expected
+            if eof == 2:
+                return (None, "the peer saw a connection reset instead of end-of-stream although no "
+                              "uv_tcp_close_reset was accepted (all bytes must reach the peer, then EOF)")
+            if "x" in trace and eof != 1 and not (conn_case and hdr0[2][0] in "TU"):
+                return (None, "the handle was closed in the ordinary way but the peer saw no end-of-stream")
             if nbytes != sum(acc.values()):
                 return (None, "the peer read %d bytes, the OS accepted %d" % (nbytes, sum(acc.values())))
             if sys_shut == 0 and eof != 1:
@@ -708,6 +782,9 @@ def run_mode(chk, name, harness_cmd, model, cases):
         if len(hdr) > 2 and hdr[2][0] in "TU":      # nobody ever accepted: no peer, no EOF to compare
             impl_trace = re.sub(r"e(\d+),\d,(\d)\s*$", r"e\1,-,\2", impl_trace.rstrip())
             bl = re.sub(r"e(\d+),\d,(\d)\s*$", r"e\1,-,\2", bl.rstrip())
+        if " z:0 " in " " + impl_trace:                # accepted reset: the peer's count / EOF are the kernel's business
+            impl_trace = re.sub(r"e(\d+),[\d-],(\d)\s*$", r"e-,-,\2", impl_trace.rstrip())
+            bl = re.sub(r"e(\d+),[\d-],(\d)\s*$", r"e-,-,\2", bl.rstrip())
         chk.count(name, c + "=>" + impl_trace)
         verdict = monitor(c, al)
         if vf.canon(impl_trace) != vf.canon(bl):
@@ -769,6 +846,8 @@ def main():
     gen = [gen_case(chk.rng) for _ in range(n)]
     conn_corpus = [l for l in corpus if len(l.split(";")[0].split()) > 2]
     corpus = [l for l in corpus if len(l.split(";")[0].split()) <= 2]
+    tcp_corpus = [l for l in corpus if "Z" in l.split(";")[1].split() + l.split(";")[2].split()]   # uv_tcp_close_reset
+    corpus = [l for l in corpus if l not in tcp_corpus]
     cases = FIXED + corpus + gen
     a = run_mode(chk, "stream.c write path = Model/StreamWrite.v (unix socketpair via uv_pipe_open)",
                  [hs, "unix"], model, cases)
@@ -776,7 +855,8 @@ def main():
         chk.sample({"case": gen[0][:300], "impl": a[len(FIXED) + len(corpus)][:300]})
         chk.cov["write_callbacks_observed"] = sum(l.split(";")[0].count(" b") for l in a)
         chk.cov["syscall_answers_logged"] = sum(len(l.split(";")[1].split()) for l in a if l.count(";") == 4)
-    tcases = FIXED + corpus + gen[: (8000 if thorough else 1200)]
+    tcases = FIXED + FIXED_TCP + corpus + tcp_corpus + \
+        [add_reset(chk.rng, c) for c in gen[: (8000 if thorough else 1200)]]
     run_mode(chk, "stream.c write path = Model/StreamWrite.v (tcp loopback via uv_tcp_open)",
              [hs, "tcp"], model, tcases)
 
@@ -801,6 +881,10 @@ def main():
              "wake-up, blocking streams; the answers actually given are replayed into the extracted model; "
              "compared: return codes, accepted chunks (request, offset, length), callback order/status, "
              "write_queue_size after every step and inside every callback, shutdown(2) position, peer bytes/EOF; "
+             "second pass (TCP loopback): the same scripts with uv_tcp_close_reset at any point, mostly between "
+             "uv_shutdown and its callback: refused calls must leave SO_LINGER off (read back with getsockopt) and the "
+             "stream as it was, the peer still gets every byte and then end-of-stream (a reset at the peer is a "
+             "violation unless a reset was accepted); "
              "third pass: scripts that start between a real non-blocking uv_tcp_connect/uv_pipe_connect (to a "
              "listener of the harness, or to an address nobody listens on) and the connect callback, with "
              "connect(2)/getsockopt(SO_ERROR) answers logged and EINPROGRESS answers forced, and connects retried on "
